@@ -70,10 +70,19 @@ def gen_case(seed, tier):
         cfg['maxlen'] = rng.choice((None, None, 2, 3))
         prog = []
         for j in range(rng.randint(2, 7)):
-            name = rng.choice(('append', 'append', 'appendleft', 'dpop', 'dpopleft'))
+            name = rng.choice(('append', 'append', 'appendleft', 'dpop', 'dpopleft', 'dextend', 'dextendleft', 'diadd', 'drotate',
+                               'dreverse', 'dclear', 'dmaxlen', 'dsetitem', 'ddelitem'))
             op = {'op': name}
-            if name.startswith('append'):
+            if name.startswith('append') or name == 'dsetitem':
                 op['v'] = c05.uniq_value(rng, 0, j, big_n)
+            if name in ('dextend', 'dextendleft', 'diadd'):
+                op['vs'] = [c05.uniq_value(rng, 0, j * 10 + b, big_n) for b in range(rng.randint(2, 4))]
+            if name == 'drotate':
+                op['n'] = rng.choice((1, -1, 2, -2, 3))
+            if name in ('dsetitem', 'ddelitem'):
+                op['i'] = rng.choice((0, -1, 1))
+            if name == 'dmaxlen':
+                op['n'] = rng.choice((1, 2, 3))
             prog.append(op)
         progs = {'v': prog}
     elif scen == 'bulk':
@@ -319,9 +328,32 @@ def deque_model(prog, maxlen):
                 d.pop()
             elif name == 'dpopleft':
                 d.popleft()
+            elif name in ('dextend', 'diadd'):
+                d.extend(fp(vals.dec(x)) for x in op['vs'])
+            elif name == 'dextendleft':
+                d.extendleft(fp(vals.dec(x)) for x in op['vs'])
+            elif name == 'drotate':
+                d.rotate(op['n'])
+            elif name == 'dreverse':
+                d.reverse()
+            elif name == 'dclear':
+                d.clear()
+            elif name == 'dmaxlen':
+                d = collections.deque(d, maxlen=op['n'])
+            elif name == 'dsetitem':
+                d[op['i']] = fp(vals.dec(op['v']))
+            elif name == 'ddelitem':
+                del d[op['i']]
         except IndexError:
             pass
     return list(d)
+
+
+def _final_maxlen(prog, maxlen):
+    for op in prog:
+        if op['op'] == 'dmaxlen':
+            maxlen = op['n']
+    return maxlen
 
 
 def run_deque(case):
@@ -331,7 +363,7 @@ def run_deque(case):
         violations = out['violations']
         classify_kill(world.sim, probes)
         fresh = post_mortem(world, case, out, violations, probes)
-        dq = world.dc.Deque.fromcache(fresh, maxlen=case['cfg'].get('maxlen'))
+        dq = world.dc.Deque.fromcache(fresh, maxlen=None)
         try:
             out['final'] = [fp(x) for x in dq]
         except Exception as exc:  # noqa
@@ -355,6 +387,15 @@ def run_deque(case):
     cands = [deque_model(prog[:n], case['cfg'].get('maxlen'))]
     if pending:
         cands.append(deque_model(prog[:n + 1], case['cfg'].get('maxlen')))
+    if out.get('final') is not None and out['final'] not in cands and pending:
+        pop = pending[0]['op']
+        if pop['op'] in ('dextend', 'dextendleft', 'diadd'):
+            # a bulk insertion interrupted after some of its items: the items so far are there, the rest is not
+            partial = [deque_model(prog[:n] + [dict(pop, vs=pop['vs'][:m])], case['cfg'].get('maxlen')) for m in range(1, len(pop['vs']))]
+            if out['final'] in partial:
+                violations.append({'rule': 'C07/post-crash-state', 'sig': 'bulk-insertion-partly-applied',
+                                   'detail': '%s interrupted by the kill left %s; before %s, complete %s' % (pop['op'], out['final'], cands[0], cands[-1])})
+                out['final'] = None
     if out.get('final') is not None and out['final'] not in cands:
         violations.append({'rule': 'C07/post-crash-state', 'sig': 'deque',
                            'detail': 'deque after the kill is %s; expected one of %s (completed ops, interrupted op all-or-nothing)'
